@@ -81,7 +81,7 @@ class Src:
             if self.canon:
                 from . import canon
 
-                tree = canon.canonical(tree)
+                tree = canon.canonical(tree, rel)
             self._py[rel] = pysrc.Module(rel, tree, self.text(rel), canon=self.canon)
         return self._py[rel]
 
